@@ -123,6 +123,9 @@ func writeFaults(v valueSpec, idx int) {
 // writeFaultsOn injects destination faults at every offset of the output of
 // base (which is never written itself: every write uses a value copy) and
 // returns the fault-free output.
+// lightErrorValues: set while the values of the state space are judged.
+var lightErrorValues bool
+
 func writeFaultsOn(base *sp.Inst, detail func(what string) map[string]interface{}) []byte {
 	var ref bytes.Buffer
 	if _, err := base.Clone().S.WriteTo(&ref); err != nil {
@@ -194,6 +197,14 @@ func writeFaultsOn(base *sp.Inst, detail func(what string) map[string]interface{
 			step := 1
 			if len(out) > 400 {
 				step = 5
+			}
+			if lightErrorValues {
+				// values of the state space (tens of thousands): one mode, every
+				// third offset, the two values that are io.EOF itself or wrap it
+				if mode != "call" || (ev.name != "io.EOF" && ev.name != "wrapped-EOF") {
+					continue
+				}
+				step = 3
 			}
 			for k := 0; k <= len(out); k += step {
 				in := base.Clone()
@@ -275,7 +286,9 @@ func statePlans() []sp.Plan {
 func stateCheck(in *sp.Inst, hist []sp.Op, cfg sp.Cfg, p *sp.Plan) {
 	al := sp.Alphabet(p.AlName)
 	h := append([]sp.Op(nil), hist...)
+	lightErrorValues = true
 	out := writeFaultsOn(in, func(what string) map[string]interface{} { return sp.HistoryDetail(cfg, p.AlName, h, al, what) })
+	lightErrorValues = false
 	ctx.Add("state_space_values", 1)
 	if out != nil && len(hist)%3 == 0 {
 		readFaults(out, "state-space")
@@ -299,6 +312,9 @@ func readFaults(data []byte, label string) {
 		{"wrapped-eof-error", fmt.Errorf("read: %w", io.EOF), false}, {"path-error-eof", &fs.PathError{Op: "read", Path: "source", Err: io.EOF}, false},
 		{"wrapped-unexpected-eof-error", fmt.Errorf("read: %w", io.ErrUnexpectedEOF), false}, {"short-buffer-error", io.ErrShortBuffer, false}, {"no-progress-error", io.ErrNoProgress, false}} {
 		for k := 0; k < len(data); k++ {
+			if len(data) > 1500 && k%9 != 0 && k > 64 && k < len(data)-64 {
+				continue // long files: every ninth offset and both ends (the plain error value below takes every offset)
+			}
 			fr := &faultio.FailReader{Data: data, At: k, Err: v.err, Once: v.once}
 			var err error
 			c := engine.Catch(func() { _, err = smf.ReadFrom(fr) })
